@@ -1,5 +1,6 @@
 #!/bin/bash
 # confirm_seed.sh <src-dir with patch.diff demo_test.go meta.json> <dest seeded/<name>>
+# DEMO_FLAGS (env, optional): extra go test flags for the demo runs, e.g. -race.
 # Confirms in a scratch worktree of /repo HEAD: patch applies; full suite passes with it;
 # demo fails with it and passes without it. Keeps the seed only when all hold.
 set -u
@@ -17,12 +18,12 @@ res="patch_applies=no"
 if git apply --check "$SRC/patch.diff" 2>/dev/null; then
   res="patch_applies=yes"
   cp "$SRC/demo_test.go" "$demo"
-  if go test -count=1 -timeout 300s ./$place/ >/tmp/seed_pre.$$ 2>&1; then pre=pass; else pre=fail; fi
+  if go test ${DEMO_FLAGS:-} -count=1 -timeout 300s ./$place/ >/tmp/seed_pre.$$ 2>&1; then pre=pass; else pre=fail; fi
   rm -f "$demo"
   git apply "$SRC/patch.diff"
   if go build ./... >/dev/null 2>&1 && go test -count=1 -timeout 600s ./... >/tmp/seed_suite.$$ 2>&1; then suite=pass; else suite=fail; fi
   cp "$SRC/demo_test.go" "$demo"
-  if timeout 600 go test -count=1 -timeout 300s ./$place/ >/tmp/seed_post.$$ 2>&1; then post=pass; else post=fail; fi
+  if timeout 600 go test ${DEMO_FLAGS:-} -count=1 -timeout 300s ./$place/ >/tmp/seed_post.$$ 2>&1; then post=pass; else post=fail; fi
   res="$res demo_without_patch=$pre suite_with_patch=$suite demo_with_patch=$post"
   rm -f /tmp/seed_pre.$$ /tmp/seed_suite.$$ /tmp/seed_post.$$
 fi
